@@ -114,6 +114,19 @@ func verifyUnit1(l *Loader, pkgPath, key string, fixed map[string]Val, suffix st
 		ex.assumeAll(st, typeInv(v, 0))
 		ex.assumeHeapWF(st, v)
 	}
+	// a function literal verified as its own unit: its free variables are pointers to captured
+	// variables of the enclosing function, here arbitrary allocated cells
+	var unitBindings []Val
+	for _, fv := range fn.FreeVars {
+		v := freshVal("fv_"+fv.Name(), fv.Type())
+		ex.assumeAll(st, typeInv(v, 0))
+		ex.assumeHeapWF(st, v)
+		if len(v.C) == 1 && v.C[0].Sort == IntSort {
+			ex.assume(st, Neq(v.C[0], IntC(0)))
+		}
+		st.Regs[fv] = v
+		unitBindings = append(unitBindings, v)
+	}
 	fx0 := &fnExec{ex: ex, fn: fn, c: c, args: args, callCount: map[string]int{}, prefix: shortPkg(fn) + "." + funcKey(fn)}
 	env := &SpecEnv{ex: ex, fx: fx0, st: st, old: st, vars: map[string]Val{}, fn: fn}
 	for i, n := range names {
@@ -139,8 +152,11 @@ func verifyUnit1(l *Loader, pkgPath, key string, fixed map[string]Val, suffix st
 	for _, m := range c.Modifies {
 		locs = append(locs, env.evalLoc(m))
 	}
-	rv, out := ex.runFunc(fn, args, nil, st, true, c)
+	rv, out := ex.runFunc(fn, args, unitBindings, st, true, c)
 	ex.checkKept(fn, fx0.prefix)
+	if !ex.Bounded {
+		checkAssertsFired(c)
+	}
 	if !out.Reach.IsFalse() {
 		fxp := &fnExec{ex: ex, fn: fn, c: c, args: args, callCount: map[string]int{}, prefix: fx0.prefix}
 		env2 := &SpecEnv{ex: ex, fx: fxp, st: out, old: entry, vars: map[string]Val{}, fn: fn}
@@ -428,6 +444,7 @@ type PropSpec struct {
 	Packages []string `json:"packages"`
 	Units    []string `json:"units"`    // "<pkg path relative to module>:<key>"
 	Thorough []string `json:"thorough"` // extra units for the thorough tier
+	ThoroughUnits []string `json:"thorough_units"` // same (name used by the props.d files)
 	Level    string   `json:"level"`    // proof | other
 	Assumptions []string `json:"assumptions"`
 	Explanation string `json:"explanation"`
